@@ -529,6 +529,16 @@ def revalue(rng, templates, old, one_only=False):
     return new
 
 
+def bind_filtered(rng, templates, bind):
+    """Copy of `bind` in which every filtered variable of the (changed) templates is bound (ASSUMPTIONS: the
+    statement does not say how an unbound filtered variable renders)."""
+    new = dict(bind)
+    for n in sorted(used_names(templates)[1]):
+        if n not in new:
+            new[n] = gen_value(rng)
+    return new
+
+
 def mutate_list_in_place(rng, bind):
     """Change one list value of `bind` IN PLACE (same list object, same dict). Returns the key or None."""
     keys = [k for k in sorted(bind) if isinstance(bind[k], list)]
